@@ -181,16 +181,16 @@ def main(argv):
         # one dedicated program for a known finding (raw records with a narrow field before a
         # pointer field, compiled route): kept apart so that it masks nothing else
         rr = progen.b_rawrec("0", vsim.Rng(seed, "c09-rawrec"), 60)
-        cands.append({"name": "rawrec.as", "text": progen.render([("rawrec", rr[0], rr[2])]).encode(), "origin": "generated"})
+        cands.append({"name": "rawrec.as", "text": progen.render([("rawrec", rr[0], rr[2])]).encode("latin-1"), "origin": "generated"})
         # a second dedicated program for a known finding: the marker recurses once per object
         # unless the link sits in the object's last word; a chain of several 10^5 cells linked
         # through their FIRST field exhausts the C stack during a collection
         dc = progen.b_chain("0", vsim.Rng(seed, "c09-deepchain"), 0, length=400000)
-        cands.append({"name": "deepchain.as", "text": progen.render([("chain", dc[0], dc[2])]).encode(), "origin": "generated"})
+        cands.append({"name": "deepchain.as", "text": progen.render([("chain", dc[0], dc[2])]).encode("latin-1"), "origin": "generated"})
         # micro programs: one block kind each, a handful of iterations - small enough for a collection
         # at EVERY allocation of the program's own work (exhaustive over that stretch)
         for name, text in progen.micro_programs(vsim.Rng(seed, "c09-micro")):
-            cands.append({"name": name, "text": text.encode(), "origin": "micro"})
+            cands.append({"name": name, "text": text.encode("latin-1"), "origin": "micro"})
         cs = worlds.corpus(max_bytes=5000)
         rngc = vsim.Rng(seed, "c09-corpus")
         rngc.shuffle(cs)
